@@ -1253,6 +1253,32 @@ hops_run(Params *p)
 			}
 			hops.push_back(h);
 			bodies.push_back(std::vector<uint8_t>((uint8_t *) nng_msg_body(m), (uint8_t *) nng_msg_body(m) + bl));
+			// attempts that fail leave the message as it was: try without blocking,
+			// or with a time-out too short to get through, before the real send
+			for (int att = (int) W(0, 3); att > 0 && parked > 0; att--) {
+				int frv;
+				if (W(0, 1)) {
+					frv = nng_sendmsg(w.A, m, NNG_FLAG_NONBLOCK);
+				} else {
+					UAio f;
+					nng_aio_set_msg(f.aio, m);
+					nng_aio_set_timeout(f.aio, (nng_duration) W(1, 3));
+					f.arm("pair1_bp_try");
+					nng_socket_send(w.A, f.aio);
+					f.wait(0);
+					frv = f.result;
+				}
+				if (frv == 0) {
+					m = NULL; // it went after all
+					break;
+				}
+				sim_probe("c08_hops_failed_attempt");
+			}
+			if (m == NULL) {
+				// keep the bookkeeping simple: this one is on its way, in order
+				us.push_back(NULL);
+				continue;
+			}
 			UAio *u = new UAio();
 			nng_aio_set_msg(u->aio, m);
 			nng_aio_set_timeout(u->aio, 20000);
@@ -1285,6 +1311,8 @@ hops_run(Params *p)
 				    i, parked, hops[(size_t) i], wh, hops[(size_t) i] + 1);
 		}
 		for (auto u : us) {
+			if (u == NULL)
+				continue;
 			u->wait(0);
 			if (u->result != 0) {
 				nng_msg_free(nng_aio_get_msg(u->aio));
